@@ -81,3 +81,45 @@ Theorem C04_l2_gradient_as_einsum_pair : forall t L q eps xs cs z, grad_l2 t L q
   transform t (gsum_w (fun x => gweight L q eps (cdist2 (transform t x) (transform t z))) (transform t) (transform t z) xs cs).
 Proof. exact grad_l2_as_gsum_w. Qed.
 Print Assumptions C04_l2_gradient_as_einsum_pair.
+
+(* ---------- the autodiff kernels: the derivative theorems ---------- *)
+Require Import XV.Real.GradsP XV.Real.GradAuto.
+(* Model of what the code returns (GradAuto): jacrev yields, per transformed coordinate, sum_i c_i d/dzm_e fwd(x_i, zm) with the eps-mask treated as a
+   constant; the generic wrapper multiplies that row by the transform.  For every number of centers, every dimension, every transform that is used
+   symmetrically in coordinate d, and every query point in general position (no coordinate of a transformed difference vanishes, masks open), coordinate d
+   of the model IS the derivative of the documented predictor along e.  (That jacrev returns these partial derivatives is PyTorch's contract; the harness
+   compares its numbers with this model by `interval` and with mpmath.) *)
+Theorem C04_product_gradient_is_the_derivative : forall t L q eps xs cs z d e,
+  wf_tmat t (length z) -> length e = length z -> List.Forall (fun x => length x = length z) xs ->
+  sym_at t d (transform t e) (length (transform t z)) ->
+  List.Forall (fun x => eps <= sum_abs_pow q (transform t (vsubR z x))) xs ->
+  List.Forall (fun x => nz (transform t (vsubR z x))) xs ->
+  is_derive (fun s => fpred (closed_product t L q) xs cs (vaxpy s e z)) 0 (nth d (grad_product t L q eps xs cs z) 0).
+Proof. exact grad_product_is_derivative. Qed.
+Theorem C04_lpq_gradient_is_the_derivative : forall t L p q eps xs cs z d e,
+  wf_tmat t (length z) -> length e = length z -> List.Forall (fun x => length x = length z) xs ->
+  sym_at t d (transform t e) (length (transform t z)) ->
+  List.Forall (fun x => eps <= normp p (transform t (vsubR z x))) xs ->
+  List.Forall (fun x => nz (transform t (vsubR z x))) xs ->
+  is_derive (fun s => fpred (closed_lpq t L p q) xs cs (vaxpy s e z)) 0 (nth d (grad_lpq t L p q eps xs cs z) 0).
+Proof. exact grad_lpq_is_derivative. Qed.
+Theorem C04_sum_power_gradient_is_the_derivative : forall t L q c power xs cs z d e,
+  wf_tmat t (length z) -> length e = length z -> List.Forall (fun x => length x = length z) xs ->
+  sym_at t d (transform t e) (length (transform t z)) ->
+  List.Forall (fun x => nz (transform t (vsubR z x))) xs ->
+  is_derive (fun s => fpred (closed_sum_power t L q c power) xs cs (vaxpy s e z)) 0 (nth d (grad_sum_power t L q c power xs cs z) 0).
+Proof. exact grad_sum_power_is_derivative. Qed.
+Print Assumptions C04_product_gradient_is_the_derivative.
+Print Assumptions C04_lpq_gradient_is_the_derivative.
+Print Assumptions C04_sum_power_gradient_is_the_derivative.
+(* for exponents above one the general-position hypothesis is not needed (|a|^q is differentiable at 0) *)
+Theorem C04_product_kernel_smooth_for_q_gt_1 : forall L q u w, 1 < q -> length u = length w -> is_derive (kprod_along L q u w) 0 (dprod L q u w).
+Proof. exact kprod_along_derive_q_gt_1. Qed.
+(* and at exponent one it genuinely is: |s| has no derivative at 0 *)
+Theorem C04_abs_not_differentiable_at_zero : forall l, ~ is_derive (fun s => pw (Rabs (0 + s * 1)) 1) 0 l.
+Proof. exact abs_pow_not_derivable_q1. Qed.
+(* a center whose mask is closed (the query coincides with it) contributes the zero vector *)
+Theorem C04_masked_center_contributes_zero : forall L q eps m u us c cs, sum_abs_pow q u < eps ->
+  gauto (dprod_m L q eps) m (u :: us) (c :: cs) = gauto (dprod_m L q eps) m us cs.
+Proof. exact gauto_product_closed_center. Qed.
+Print Assumptions C04_masked_center_contributes_zero.
